@@ -374,13 +374,26 @@ def run():
                           'graph names=%r edges=%r: routes %r, model %r' % (names, edges, imp, mt),
                           {'kind': 'correspondence' if okp else 'impl', 'theorem': 'Routes.route_table / c06_routes_order_independent_le4',
                            'names': names, 'edges': edges, 'observed': imp, 'model': mt}, no_input=okp)
+    sweep5 = None
+    if not quick:
+        # order independence for every graph on 5 layouts: the Coq function order_independent_slice run by the extracted code,
+        # 16 slices in parallel; by RoutesSweep.slices_cover all slices true => order_independent_upto 5 = true
+        from concurrent.futures import ThreadPoolExecutor
+        with ThreadPoolExecutor(16) as ex:
+            outs = list(ex.map(lambda k: core.model(['routesweep 5 %d 16' % k], 3000)[0], range(16)))
+        sweep5 = all(o == '1' for o in outs)
+        chk.cov['certificates_checked'] += 16
+        if not sweep5:
+            chk.violation('layout._makeConnectionMap:order-dependent-on-5-layouts', 'the route model depends on the set iteration order for some graph on 5 layouts '
+                          '(slices %r of 16 fail)' % [k for k, o in enumerate(outs) if o != '1'],
+                          {'kind': 'model', 'theorem': 'RoutesSweep.slices_cover / order_independent_upto 5', 'slices': outs}, no_input=True)
     chk.assumptions += ['each rank is a deterministic function of its inputs and of the results of its collectives (checked: traces identical '
                         'across arrival orders)', 'a real MPI library behaves as the standard specifies for matched collectives (progress engine, '
                         'eager/rendezvous limits are outside the model)']
     return chk.finish(proof,
                       rule='scenarios x arrival orders: every priority order for <= 3 ranks plus seeded random scheduling; %d random layout graphs '
                            '(2-6 layouts) x %d PYTHONHASHSEEDs; non-trivial = more than one rank / more than two layouts' % (ngraphs, len(seeds)),
-                      extra={'scenarios': len(scen), 'hash_seeds': seeds, 'graphs': ngraphs},
+                      extra={'scenarios': len(scen), 'hash_seeds': seeds, 'graphs': ngraphs, 'route_sweep_5_layouts_all_orders': sweep5},
                       uncovered=['order independence of the route search is a theorem for <= 4 layouts (finite sweep by vm_compute); for 5-6 layouts it is '
                                  'tested against the model and across hash seeds', 'behaviour of a real MPI runtime'])
 
